@@ -288,10 +288,11 @@ fn cmd_run(a: &[String]) -> i32 {
         plans.push((exe.clone(), def.id.to_string(), def.id.to_string(), false));
     }
 
-    let watchdog = Duration::from_secs(match tier {
+    // generous wall-clock watchdog (its firing is INCONCLUSIVE, never a violation); mutation trials shorten it
+    let watchdog = Duration::from_secs(std::env::var("CVH_WATCHDOG_S").ok().and_then(|v| v.parse().ok()).unwrap_or(match tier {
         Tier::Quick => 900,
         Tier::Thorough => 4 * 3600,
-    });
+    }));
     let mut inconclusive: Vec<String> = vec![];
     let mut crashed: Vec<(String, String)> = vec![]; // (label, progress)
     for (bin, chk, label, meta) in &plans {
